@@ -44,8 +44,40 @@ def body_safe(stmts, allowed_calls):
     return True
 
 
-def handler_coq(catches, safe, cls):
-    return "{| h_catches := %s; h_body_safe := %s; h_raises := %s |}" % ("true" if catches else "false", "true" if safe else "false", cls)
+def type_names(t):
+    """class names an `except` clause catches (last component of dotted names: re.error -> error)"""
+    need(t is not None, "bare except clause")
+    elts = t.elts if isinstance(t, ast.Tuple) else [t]
+    out = []
+    for e in elts:
+        need(isinstance(e, (ast.Name, ast.Attribute)), "unrecognised exception type: " + ast.unparse(e))
+        out.append(e.id if isinstance(e, ast.Name) else e.attr)
+    return out
+
+
+def unsafe_exception(stmts):
+    """the exception class a handler body raises by itself before reaching its raise statement, or None:
+    subscripting (`node[1]` on a Terminal) -> TypeError; any other call outside SAFE_CALLS -> Exception"""
+    for st in stmts:
+        for n in ast.walk(st):
+            if isinstance(n, ast.Subscript):
+                return "TypeError"
+            if isinstance(n, ast.Call) and ast.unparse(n.func) not in SAFE_CALLS:
+                return "Exception"
+    return None
+
+
+def clause_coq(h, swallow=None):
+    """one except clause -> Coq `clause`; swallow = list of statement texts of a body that does not raise"""
+    names = "[%s]" % "; ".join(coq_codes(n) for n in type_names(h.type))
+    if swallow is not None and [ast.unparse(x) for x in h.body] == swallow:
+        return "{| cl_types := %s; cl_action := ASwallow |}" % names
+    u = unsafe_exception(h.body)
+    return "{| cl_types := %s; cl_action := ARaise %s %s |}" % (names, "None" if u is None else "(Some %s)" % coq_codes(u), raised_class(h.body))
+
+
+def clauses_coq(handlers, swallow=None):
+    return "[%s]" % "; ".join(clause_coq(h, swallow) for h in handlers)
 
 
 SAFE_CALLS = {"self.grammar_parser.pos_to_linecol", "grammar_parser.pos_to_linecol", "TextXSyntaxError", "TextXSemanticError",
@@ -95,8 +127,7 @@ def translate():
     need(len(t.body) == 1 and ast.unparse(t.body[0]) == "regex.compile()" and len(t.handlers) == 1 and not t.orelse and not t.finalbody,
          "visit_re_match try changed")
     h = t.handlers[0]
-    need(h.type is not None and ast.unparse(h.type) in ("Exception",), "visit_re_match handler type changed: " + ast.unparse(h.type))
-    re_handler = handler_coq(True, body_safe(h.body, SAFE_CALLS), raised_class(h.body))
+    re_clauses = clauses_coq(t.handlers)
     # ---- visit_str_match
     fn = find_func(tree, "visit_str_match", "TextXVisitor")
     t = [n for n in fn.body if isinstance(n, ast.Try)]
@@ -105,12 +136,7 @@ def translate():
     need("decode_escapes(to_match)" in ast.unparse(t.body) and not t.orelse and not t.finalbody, "visit_str_match try body changed")
     types = [ast.unparse(h.type) for h in t.handlers]
     need("IndexError" in types and ast.unparse(t.handlers[types.index("IndexError")].body) == "to_match = ''", "IndexError handler changed")
-    need(set(types) <= {"IndexError", "UnicodeDecodeError"}, "visit_str_match handlers changed: %r" % types)
-    if "UnicodeDecodeError" in types:
-        h = t.handlers[types.index("UnicodeDecodeError")]
-        str_handler = handler_coq(True, body_safe(h.body, SAFE_CALLS), raised_class(h.body))
-    else:
-        str_handler = handler_coq(False, True, "CSyntax")
+    str_clauses = clauses_coq(t.handlers, swallow=["to_match = ''"])
     # decode_escapes only calls codecs.decode(..., 'unicode-escape')
     fn = find_func(tree, "decode_escapes")
     need("codecs.decode(match.group(0), 'unicode-escape')" in ast.unparse(fn), "decode_escapes changed")
@@ -118,16 +144,14 @@ def translate():
     fn = find_func(tree, "language_from_str")
     t = try_of(fn, "language_from_str")
     need(len(t.body) == 1 and ast.unparse(t.body[0]) == "parse_tree = parser.parse(language_def, file_name)", "parse call changed")
-    need(len(t.handlers) == 1 and ast.unparse(t.handlers[0].type) == "NoMatch", "NoMatch handler changed")
-    nomatch_handler = handler_coq(True, body_safe(t.handlers[0].body, SAFE_CALLS), raised_class(t.handlers[0].body))
+    nomatch_clauses = clauses_coq(t.handlers)
     src = ast.unparse(fn)
     need("visit_parse_tree(parse_tree, TextXVisitor(parser, metamodel))" in src, "visitor call changed")
     # ---- _resolve_cls
     fn = find_func(tree, "_resolve_cls")
     t = try_of(fn, "_resolve_cls")
     need(len(t.body) == 1 and ast.unparse(t.body[0]) == "cls = metamodel[cls.cls_name]", "class lookup changed")
-    need(len(t.handlers) == 1 and ast.unparse(t.handlers[0].type) == "KeyError", "KeyError handler changed")
-    keyerror_handler = handler_coq(True, body_safe(t.handlers[0].body, SAFE_CALLS), raised_class(t.handlers[0].body))
+    keyerror_clauses = clauses_coq(t.handlers)
     # ---- visit_repeatable_expr: the `#` branch
     fn = find_func(tree, "visit_repeatable_expr", "TextXVisitor")
     ugs = [n for n in ast.walk(fn) if isinstance(n, ast.Assign) and ast.unparse(n.value).startswith("UnorderedGroup(")]
@@ -204,12 +228,15 @@ def translate():
     # ---- TextXMetaModel.__contains__ / __getitem__
     ct = find_func(mtree, "__contains__", "TextXMetaModel")
     body = [x for x in ct.body if not (isinstance(x, ast.Expr) and isinstance(x.value, ast.Constant))]
-    need(len(body) == 1 and isinstance(body[0], ast.Try), "TextXMetaModel.__contains__ is no longer a single try statement")
-    t = body[0]
-    need([ast.unparse(x) for x in t.body] == ["self[name]", "return True"] and len(t.handlers) == 1
-         and ast.unparse(t.handlers[0].type) == "KeyError" and [ast.unparse(x) for x in t.handlers[0].body] == ["return False"]
-         and not t.orelse and not t.finalbody, "TextXMetaModel.__contains__ changed")
-    contains_catches = True
+    if len(body) == 1 and isinstance(body[0], ast.Try):
+        t = body[0]
+        need([ast.unparse(x) for x in t.body] == ["self[name]", "return True"] and not t.orelse and not t.finalbody,
+             "TextXMetaModel.__contains__ changed")
+        contains_clauses = clauses_coq(t.handlers, swallow=["return False"])
+    else:
+        # no try statement at all: whatever the lookup raises leaves `rule_name in metamodel`
+        need(not any(isinstance(n, ast.Try) for n in ast.walk(ct)), "TextXMetaModel.__contains__: unrecognised try statement")
+        contains_clauses = "[]"
     gi = find_func(mtree, "__getitem__", "TextXMetaModel")
     src = ast.unparse(gi)
     for w in ["namespace, name = name.rsplit('.', 1)", "if namespace in self.referenced_languages:",
@@ -237,6 +264,24 @@ def translate():
         idx = fn.body.index(loops[0])
         need(any(ast.unparse(x) == "_update_attr_multiplicities(root_rule, set())" for x in fn.body[:idx]), "bool/many check precedes the multiplicity walk")
     need("raise TextXSemanticError(" in ast.unparse(fn) and "Can't use bool assignment " in ast.unparse(fn), "bool assignment in repetition check changed")
+    # ---- user classes: visit_rule_name / validate_user_classes
+    fn = find_func(tree, "visit_rule_name", "TextXVisitor")
+    src = ast.unparse(fn)
+    need("cls = self.metamodel.user_classes.get(rule_name)" in src, "visit_rule_name: user class lookup changed")
+    ifs = [n for n in ast.walk(fn) if isinstance(n, ast.If) and ast.unparse(n.test) == "rule_name in self.metamodel._used_rule_names_for_user_classes"]
+    need(len(ifs) == 1 and not ifs[0].orelse, "visit_rule_name: used-rule-name test changed")
+    user_redef = raised_class(ifs[0].body)
+    need("self.metamodel._used_rule_names_for_user_classes.add(rule_name)" in src, "visit_rule_name: used rule names are not recorded")
+    vu = find_func(mtree, "validate_user_classes", "TextXMetaModel")
+    loops = [n for n in vu.body if isinstance(n, ast.For)]
+    need(len(loops) == 1 and ast.unparse(loops[0].iter) == "self.user_classes.values()" and len(loops[0].body) == 1
+         and isinstance(loops[0].body[0], ast.If)
+         and ast.unparse(loops[0].body[0].test) == "user_class.__name__ not in self._used_rule_names_for_user_classes",
+         "validate_user_classes changed")
+    user_unused = raised_class(loops[0].body[0].body)
+    mfs = find_func(mtree, "metamodel_from_str")
+    need("language_from_str(lang_desc, metamodel, file_name)" in ast.unparse(mfs) and "metamodel.validate_user_classes()" in ast.unparse(mfs),
+         "metamodel_from_str changed")
     # _new_import assertion (the documented exception)
     ni = find_func(mtree, "_new_import", "TextXMetaModel")
     need(any(isinstance(s, ast.Assert) and ast.unparse(s.test) == "self.root_path is not None" for s in ni.body), "_new_import assertion changed")
@@ -245,12 +290,14 @@ def translate():
         "Definition src_cfg : cfg := {|",
         "  c_params := [%s];" % "; ".join(coq_codes(n) for n in names),
         "  c_param_cls := %s; c_split_cls := %s; c_ws_guard := %s;" % (param_cls, split_cls, ws_guard),
-        "  c_re_handler := %s;" % re_handler,
-        "  c_str_handler := %s;" % str_handler,
-        "  c_nomatch_handler := %s;" % nomatch_handler,
-        "  c_keyerror_handler := %s;" % keyerror_handler,
+        "  c_re_clauses := %s;" % re_clauses,
+        "  c_str_clauses := %s;" % str_clauses,
+        "  c_nomatch_clauses := %s;" % nomatch_clauses,
+        "  c_keyerror_clauses := %s;" % keyerror_clauses,
+        "  c_contains_clauses := %s;" % contains_clauses,
         "  c_ugroup_guard := %s; c_alias_guard := %s; c_mmm_getitem := %s;" % ("true" if ug_guard else "false", alias_guard, "true" if mmm_getitem else "false"),
-        "  c_contains_catches := %s; c_ruletype_by_class := %s; c_boolmany_check := %s;" % ("true" if contains_catches else "false", "true" if ruletype_by_class else "false", boolmany),
+        "  c_ruletype_by_class := %s; c_boolmany_check := %s;" % ("true" if ruletype_by_class else "false", boolmany),
+        "  c_user_redef_cls := %s; c_user_unused_cls := %s;" % (user_redef, user_unused),
         "  c_base_names := [%s] |}." % "; ".join(coq_codes(n) for n in base),
     ]) + "\n")
     return []
